@@ -314,7 +314,7 @@ func (c *Context) PipeTo(recipient vivid.ActorRef, message vivid.Message, forwar
 func (c *Context) HandleEnvelop(envelop vivid.Envelop) {
 	// OnLaunch 必须是 Actor 看到的第一条消息。ActorOf 先登记路径（对外可见）再投递 OnLaunch，
 	// 持有按路径构造的引用（CreateRef / ParseRef）的发送方可能恰好在这两步之间投递消息并抢先被处理。
-	// 在 OnLaunch 处理完成之前到达的消息先行暂存，待 OnLaunch 处理后按到达顺序立即补处理：
+	// 在 OnLaunch 处理完成之前到达的消息先行暂存，待 OnLaunch 处理后按到达顺序补处理：
 	// 它们先于邮箱中其余消息出队，因此不改变任何发送方的消息顺序。根 Actor 不会收到 OnLaunch，不受此限。
 	if !c.launched && c.parent != nil {
 		if _, isLaunch := envelop.Message().(*vivid.OnLaunch); !isLaunch {
@@ -322,15 +322,26 @@ func (c *Context) HandleEnvelop(envelop vivid.Envelop) {
 			return
 		}
 		c.launched = true
-		c.handleEnvelop(envelop)
-		held := c.beforeLaunch
-		c.beforeLaunch = nil
-		for _, e := range held {
-			c.handleEnvelop(e)
-		}
-		return
 	}
 	c.handleEnvelop(envelop)
+
+	// 补处理暂存的消息，语义与邮箱一致：系统消息随时处理；普通消息在邮箱暂停期间（例如 OnLaunch 处理失败、
+	// 正在等待监督决策）必须继续等待，待恢复后（每处理完一条消息都会回到此处）再按原顺序补处理。
+	for c.launched && len(c.beforeLaunch) > 0 {
+		next := -1
+		for i, held := range c.beforeLaunch {
+			if held.System() || !c.mailbox.IsPaused() {
+				next = i
+				break
+			}
+		}
+		if next < 0 {
+			return
+		}
+		held := c.beforeLaunch[next]
+		c.beforeLaunch = append(c.beforeLaunch[:next:next], c.beforeLaunch[next+1:]...)
+		c.handleEnvelop(held)
+	}
 }
 
 func (c *Context) handleEnvelop(envelop vivid.Envelop) {
